@@ -14,7 +14,8 @@ fn main() {
     let k: usize = args.get(2).and_then(|s| s.parse().ok()).unwrap_or(2);
     // the stream a thread gets when it is the only one creating nodes (fresh thread, nothing concurrent)
     let solo = thread::spawn(move || script_caught(1, k, None)).join().unwrap().0;
-    let o = run_once(threads, k, false, false);
+    // with more than 3 threads: every thread creates its first node before any creates its second
+    let o = run_full(threads, k, false, false, 0, threads > 3);
     println!("SOLO {:?}", solo.prios);
     println!("OUTCOME {}", outcome_json(&o));
     match check_results(&o, k, &solo.tie_shape) {
